@@ -287,7 +287,7 @@ impl<'r> B<'r> {
         let dn = if spec.name_style == 0 && !same_sig_clash && self.r.chance(3, 5) { bn.clone() } else { format!("{}{}", b26(self.r.below(26)), n) };
         // ---- delegate
         let owner_itf = self.is_itf(&ref_owner);
-        let d_static = !spec.holder_itf && spec.place == Place::Same && self.r.chance(1, 8);
+        let d_static = (!spec.holder_itf || self.major >= 52) && spec.place == Place::Same && self.r.chance(1, 8); // also in an interface holder (static interface method: invokestatic through an InterfaceMethodref)
         let d_private = !d_static && !owner_itf && spec.place == Place::Same && self.r.chance(1, 10);
         let (op, itf) = if d_static { (184, owner_itf) } else if owner_itf { (185, true) } else if spec.place == Place::SuperRefSuper || d_private { (183, false) } else { (182, false) };
         let d_abstract = self.is_itf(&dcl) && !d_static && self.r.bool();
